@@ -296,6 +296,70 @@ func sendExact(rep *util.Report, c *streamCase, data []byte, pkts []packet.Gener
 	}
 }
 
+// sendDuplex: the same stream sent while the connection is also RECEIVING packets and the carrier accepts writes slowly
+// (a stalled peer): the wire must still be exactly the reference bytes, the received packets exactly what was fed
+func sendDuplex(rep *util.Report, data []byte, pkts []packet.Generic, rng *rand.Rand) {
+	car := link.NewCarrier(nil, "d")
+	car.WriteDelay = time.Duration(200+rng.Intn(800)) * time.Microsecond
+	conn := transport.NewBaseConn(car)
+	conn.SetMaxWriteDelay(time.Duration(rng.Intn(2)) * time.Millisecond)
+	// inbound traffic: packets with a recognisable payload, fed in small pieces while the sends are under way
+	in := packet.NewPublish()
+	in.Message.Topic = "in"
+	in.Message.Payload = bytes.Repeat([]byte{'I'}, 6000)
+	inb := make([]byte, in.Len())
+	in.Encode(inb)
+	const nin = 12
+	done := make(chan int, 1)
+	go func() {
+		got := 0
+		for {
+			p, err := conn.Receive()
+			if err != nil {
+				break
+			}
+			if pb, ok := p.(*packet.Publish); !ok || !bytes.Equal(pb.Message.Payload, in.Message.Payload) {
+				rep.Mismatch("duplex: a received packet differs from what the peer sent")
+				break
+			}
+			got++
+		}
+		done <- got
+	}()
+	go func() {
+		for i := 0; i < nin; i++ {
+			for off := 0; off < len(inb); off += 1500 {
+				end := off + 1500
+				if end > len(inb) {
+					end = len(inb)
+				}
+				car.Feed(inb[off:end])
+				time.Sleep(50 * time.Microsecond)
+			}
+		}
+		car.RemoteClose()
+	}()
+	for i, p := range pkts {
+		if err := conn.Send(p, i%2 == 0); err != nil {
+			rep.Mismatch("duplex: Send failed: %v", err)
+		}
+	}
+	got := <-done
+	conn.Close()
+	rep.Case()
+	if got != nin {
+		rep.Mismatch("duplex: received %d of %d inbound packets", got, nin)
+	}
+	if !bytes.Equal(car.Wire(), data) {
+		w := car.Wire()
+		i := 0
+		for i < len(w) && i < len(data) && w[i] == data[i] {
+			i++
+		}
+		rep.Mismatch("duplex: wire bytes differ from the concatenated reference encodings at offset %d (wire %d bytes, reference %d) while the connection was receiving", i, len(w), len(data))
+	}
+}
+
 func head2(l []bool) []bool {
 	if len(l) > 12 {
 		return l[:12]
@@ -315,6 +379,7 @@ func streamReplay(args []string) int {
 	frag := 0
 	nontrivial := 0
 	sockLeft := *sockets
+	duplexLeft := 12
 	kinds := map[string]int{}
 	err := util.ReadLines(*in, func(line []byte) error {
 		var c streamCase
@@ -404,6 +469,10 @@ func streamReplay(args []string) int {
 		}
 		if c.Err == "eof" && c.N > 0 && len(lastGot) == c.N {
 			sendExact(rep, &c, data, lastGot, rng)
+			if len(data) > 4096 && duplexLeft > 0 {
+				duplexLeft--
+				sendDuplex(rep, data, lastGot, rng)
+			}
 		}
 		if rep.Cases < 3 {
 			rep.Sample(map[string]interface{}{"stream": fmt.Sprintf("%x", data[:min(len(data), 24)]), "limit": c.Limit, "packets": len(c.Pkts), "end": c.Err, "fragmentations": len(chunkings)}, 3)
@@ -448,6 +517,7 @@ type connScript struct {
 	RClose   bool  `json:"rclose"`     // peer closes after feeding
 	WDelayUS int   `json:"wdelay_us"`
 	FailD    int   `json:"faildeadline"` // n-th SetReadDeadline fails
+	FeedLoop int    `json:"feedloop"`   // packets the peer sends one by one while the senders are at work
 	Carrier  string `json:"carrier"`    // "" = scripted in-memory carrier, "tcp" = real TCP on loopback (logged net.Conn)
 	BlockW   int   `json:"blockwrite"`   // n-th carrier write blocks until the carrier is closed (back pressure)
 }
@@ -569,15 +639,24 @@ func runConnScenario(s *connScript) *trace.Log {
 		// op and g are the first two pairs of kv
 		log.Add("api.ret", "n", name, kv[0], kv[1], kv[2], kv[3], "err", errS(err))
 	}
-	// feed for the receiver
+	// feed for the receiver: s.Feed packets at once, s.FeedLoop more one by one while the senders are at work (duplex traffic)
 	var feed []byte
-	for i := 0; i < s.Feed; i++ {
+	var later [][]byte
+	for i := 0; i < s.Feed+s.FeedLoop; i++ {
 		p := packet.NewPublish()
 		p.Message.Topic = "r"
-		p.Message.Payload = []byte(fmt.Sprintf("R#%d", i+1))
+		pay := fmt.Sprintf("R#%d", i+1)
+		if i >= s.Feed {
+			pay += "|" + string(bytes.Repeat([]byte{'y'}, 3000))
+		}
+		p.Message.Payload = []byte(pay)
 		b := make([]byte, p.Len())
 		p.Encode(b)
-		feed = append(feed, b...)
+		if i < s.Feed {
+			feed = append(feed, b...)
+		} else {
+			later = append(later, b)
+		}
 		feedLens = append(feedLens, len(b))
 	}
 	log.Add("config", "script", s.ID, "senders", s.Senders, "delay_ms", s.DelayMS, "feed", feedLens)
@@ -585,7 +664,17 @@ func runConnScenario(s *connScript) *trace.Log {
 		conn.SetReadTimeout(time.Duration(s.Timeout) * time.Millisecond)
 	}
 	feedFn(feed)
-	if s.RClose {
+	if len(later) > 0 {
+		go func() {
+			for _, b := range later {
+				time.Sleep(150 * time.Microsecond)
+				feedFn(b)
+			}
+			if s.RClose {
+				rcloseFn()
+			}
+		}()
+	} else if s.RClose {
 		rcloseFn()
 	}
 	// receiver
@@ -606,7 +695,15 @@ func runConnScenario(s *connScript) *trace.Log {
 			if pb, ok := got.(*packet.Publish); ok {
 				k := 0
 				fmt.Sscanf(string(pb.Message.Payload), "R#%d", &k)
-				log.Add("recv.pkt", "m", string(pb.Message.Payload), "k", k)
+				m := string(pb.Message.Payload)
+				if len(m) > 12 {
+					// (a long payload must be the filler it was sent with)
+					if !strings.HasSuffix(m, "|"+string(bytes.Repeat([]byte{'y'}, 3000))) {
+						k = -1
+					}
+					m = m[:strings.Index(m, "|")]
+				}
+				log.Add("recv.pkt", "m", m, "k", k)
 			}
 		}
 	}()
